@@ -7,6 +7,8 @@ package encoder
 
 func VerifPtrs(_ *RuntimeContext) {}
 
+func VerifRelease(_ *RuntimeContext) {}
+
 func VerifSlot(_ uintptr, _ uint32) {}
 
 func VerifCodeSet(_ uintptr, _ *OpcodeSet) {}
